@@ -182,7 +182,8 @@ class Excel_PairTabulation(PairTabulation_AbstractBase):
       ws.cell(r_idx, 1, value=r)
       for label, col in zip(column_keys, ws.iter_cols(min_row=r_idx, max_row=r_idx, min_col=2, max_col=len(column_keys)+1)):
         pot = column_dict[label]
-        col[0].value = pot(r)
+        # float(): functions built on numpy / scipy interpolants return 0-d arrays, which a cell cannot hold
+        col[0].value = float(pot(r))
 
 
   def _add_pair_worksheet(self, wb):
